@@ -21,7 +21,7 @@ from visions.typesets import CompleteSet, StandardSet  # noqa: E402
 
 COMPLETE = sorted(str(t) for t in CompleteSet().types)
 STD = sorted(str(t) for t in StandardSet().types)
-LABELS = ["a", "b", "col c", 1, 2.5, ("t", 1), "Ω", "", "index", "0"]
+LABELS = ["a", "b", "col c", 1, 2.5, ("t", 1), "Ω", "", "index", "0", "1", "2.5", "('t', 1)", 0, "None"]
 
 
 def gen_frame(rng):
@@ -58,6 +58,11 @@ def fixed_frames():
             ("u", {"values": [["str", "http://a.b/c"], ["str", "https://x.y/z"], ["none"]], "dtype": "object"}),
             ("t", {"values": [["str", "2020-01-01 10:00:00"], ["str", "2021-02-03 11:30:00"], ["none"]], "dtype": "object"})]
     out = []
+    # unique labels with one and the same str(): 1 / "1", ("t", 1) / "('t', 1)", 2.5 / "2.5"
+    for la, lb in ((1, "1"), (("t", 1), "('t', 1)"), (2.5, "2.5"), ("1", 1)):
+        out.append({"labels": [la, lb], "cols": [dict(cols[3][1], index="default", name=None, stream="fixed"),
+                                                 dict(cols[2][1], index="default", name=None, stream="fixed")],
+                    "nrows": 3, "index": "default"})
     for idx in ("default", "str", "rev", "dup", "same", "mixed"):
         for lo in (0, 3, 6):
             sel = cols[lo:lo + 3]
